@@ -43,10 +43,17 @@ func (c *Ctx) stringDecoderClass(fn *types.Func) (class, why string) {
 		// exactly one decoder application, to `"` + raw + `"`; before it only the filling of a byte buffer made here (stores, copy)
 		var dec *TCall
 		var pre []Step
+		var post []Step // assignments to locals after the decoder ran (a named result cleared on the failure path)
 		for _, st := range p.Effects() {
 			if dec == nil && (st.Kind == "store" || (st.Kind == "call" && st.Blt != nil && st.Blt.Name == "copy")) {
 				pre = append(pre, st)
 				continue
+			}
+			if dec != nil && st.Kind == "store" {
+				if tv, isVar := st.LHS.(TVar); isVar && tv.Obj != nil && isLocalVar(tv.Obj) {
+					post = append(post, st)
+					continue
+				}
 			}
 			if st.Kind != "call" || st.Call == nil || st.Call.Fun == nil {
 				return "", "helper has effects besides the decoder call"
@@ -120,6 +127,9 @@ func (c *Ctx) stringDecoderClass(fn *types.Func) (class, why string) {
 		_, nilErr := p.Vals[1].(TNil)
 		if !failed {
 			d, ok := p.Vals[0].(TDeref)
+			if len(post) != 0 {
+				return "", "the decoded string is reassigned before it is returned"
+			}
 			if !nilErr || !ok || !sameTerm(d.X, dst) {
 				return "", "success path does not return the decoded string with a nil error"
 			}
@@ -192,6 +202,12 @@ func (c *Ctx) decodeSites() []decodeSite {
 			ast.Inspect(call.Args[0], func(m ast.Node) bool {
 				if bc, ok := m.(*ast.CallExpr); ok && c.calleeFull(bc) == "(*strings.Builder).String" {
 					mentions = true
+				}
+				if bc, ok := m.(*ast.CallExpr); ok && len(bc.Args) == 1 {
+					// string(buf) of a []byte token buffer
+					if tv, isConv := c.Info.Types[bc.Fun]; isConv && tv.IsType() && isStringType(tv.Type) && isByteSlice(c.typeOf(bc.Args[0])) {
+						mentions = true
+					}
 				}
 				return true
 			})
